@@ -18,10 +18,11 @@ def main():
     patch = os.path.join(src, "patch.diff")
     demo = os.path.join(src, "demo.rs")
     meta = json.load(open(os.path.join(src, "meta.json"))) if os.path.exists(os.path.join(src, "meta.json")) else {}
+    slot = os.environ.get("SEEDRUN_SLOT", "")
     rec = {"property": pid, "seed": x, "source": src}
     env = "CARGO_NET_OFFLINE=true"
     if not only_detect:
-        sv = "/tmp/sv"
+        sv = "/tmp/sv" + slot
         if not os.path.isdir(sv):
             r = sh(f"git -C /repo worktree add --detach {sv} HEAD -q")
         sh("git checkout -- . && git clean -fdq engine/tests ffi/tests/demo.rs", cwd=sv)
@@ -74,13 +75,13 @@ def main():
         open("/tmp/seedrun_results.jsonl", "a").write(json.dumps(rec) + "\n")
         return rec
     # phase 2
-    root = "/tmp/wf-agent-seedrun"
+    root = "/tmp/wf-agent-seedrun" + slot
     if "--fresh" in sys.argv or not os.path.isdir(root):
-        sh("/verif/tools/agent_setup.sh seedrun && cp -r /verif/regressions /tmp/wf-agent-seedrun/")
+        sh(f"/verif/tools/agent_setup.sh seedrun{slot} && cp -r /verif/regressions {root}/")
     else:
         # refresh the harness sources (keep target) and the repo copy
-        sh("rsync -a --exclude target --exclude Cargo.toml /verif/harness/ /tmp/wf-agent-seedrun/harness/ && rsync -a --delete /verif/regressions/ /tmp/wf-agent-seedrun/regressions/ && cp /verif/known_findings.txt /tmp/wf-agent-seedrun/")
-        sh("rsync -a --delete --exclude target --exclude .git /repo/ /tmp/wf-agent-seedrun/repo/")
+        sh(f"rsync -a --exclude target --exclude Cargo.toml /verif/harness/ {root}/harness/ && rsync -a --delete /verif/regressions/ {root}/regressions/ && cp /verif/known_findings.txt {root}/")
+        sh(f"rsync -a --delete --exclude target --exclude .git /repo/ {root}/repo/")
     repo, harness = root + "/repo", root + "/harness"
     r = sh(f"git apply {patch}", cwd=repo) if os.path.isdir(repo + "/.git") else sh(f"patch -p1 < {patch}", cwd=repo)
     if r.returncode != 0:
@@ -107,7 +108,7 @@ def main():
                 break  # the owning check detects it; the other checks are only consulted when it does not
         rec["detected_by_quick"] = detected
         rec["owner_detects"] = pid in detected and "signatures" in detected.get(pid, {})
-    sh("rsync -a --delete --exclude target --exclude .git /repo/ /tmp/wf-agent-seedrun/repo/")
+    sh(f"rsync -a --delete --exclude target --exclude .git /repo/ {root}/repo/")
     # store
     if not only_detect:
         dst = f"/verif/seeded/{pid}/{x}"
